@@ -212,10 +212,14 @@ func checkC15(e *Env) {
 				bad(fmt.Sprintf("the error message does not name an unknown token (%q)", x.unknown))
 				return
 			}
-		default: // unknown-weak, multi
-			if r.Err == nil {
-				bad("a defective sentence got a nil error")
+		default: // unknown-weak, multi: a nil error is allowed only if the string is a valid sentence in
+			// the property's sense (white-space separated tokens of the NFKD form); an implementation
+			// that tolerates extra white space is not reported
+			if st, _ := e.RefValidate(x.s, x.lang); r.Err == nil && st != ref.OK {
+				bad("a sentence that is not valid (" + st.String() + ") got a nil error")
 				return
+			} else if st == ref.OK {
+				errKinds.Inc("white-space-variant-of-valid-sentence(not asserted)")
 			}
 		}
 		matrix.Inc(fmt.Sprintf("%s/%s/%d", x.defect, ref.Names[x.lang], x.n))
